@@ -233,6 +233,15 @@ def run(ctx):
             prow = [(c_, a_, b_, v_) for c_, a_, b_, v_ in zip(chrom_names(pd_.chromosome), np.asarray(pd_.start).tolist(), np.asarray(pd_.stop).tolist(), np.asarray(pd_.value).tolist()) if v_ != 0]
             chk("pipeline:merged(d)+pileup-of-the-same-intervals", np.asarray(both_res[0]).tolist() == np.asarray(mm.start).tolist() and np.asarray(both_res[1]).tolist() == np.asarray(mm.stop).tolist() and prow == ref["pileup_rows"],
                 [np.asarray(both_res[0]).tolist()[:5], np.asarray(both_res[1]).tolist()[:5], prow[:4]], [np.asarray(mm.start).tolist()[:5], np.asarray(mm.stop).tolist()[:5], ref["pileup_rows"][:4]])
+            # several reductions asked for in one compute call as a dict (keys not in alphabetical order): every value under its own key
+            sg1 = genome.get_intervals(NpDataclassStream(iter(pieces(t.astype(Interval), cuts)), dataclass=Interval))
+            sg2 = genome.get_intervals(NpDataclassStream(iter(pieces(t.astype(Interval), cuts)), dataclass=Interval))
+            outd = bnp.compute({"total": sg1.get_pileup().sum(), "histogram": np.histogram(sg2.get_pileup(), bins=3, range=(0, 3))})
+            okd = isinstance(outd, dict) and list(outd) == ["total", "histogram"] and np.ndim(outd["total"]) == 0 and int(outd["total"]) == ref["pileup_sum"] and same(np.asarray(outd["histogram"][0]), ref["pileup_hist"])
+            chk("pipeline:compute(dict)", okd, {k_: str(v_)[:60] for k_, v_ in outd.items()} if isinstance(outd, dict) else str(outd)[:80], {"total": ref["pileup_sum"], "histogram": ref["pileup_hist"].tolist()})
+            # the axis of a mean given positionally, as for NumPy arrays
+            g = np.asarray(bnp.compute(np.mean(mk_iv().get_pileup()[mk_iv()], 0)))
+            chk("pipeline:mean(x, 0)-under-intervals", same(g, ref["under_mean0"]), g.tolist(), ref["under_mean0"].tolist())
             # intervals that reach to, or hang over, the end of their chromosome are clipped first: clip -> pileup, streamed
             sgc = genome_c.get_intervals(NpDataclassStream(iter(pieces(t.astype(Interval), cuts)), dataclass=Interval)).clip().get_pileup()
             g = int(bnp.compute(sgc.sum()))
